@@ -43,8 +43,6 @@ def run_one(seed, tier, props):
         h = hashlib.sha1(d.encode()).hexdigest()[:8]
         shutil.rmtree(d, ignore_errors=True)
         shutil.rmtree(os.path.join(VERIF, "build", "alt-" + h), ignore_errors=True)
-        # evidence files are rewritten by the runs against the copy: restore them from git
-        subprocess.run(["git", "-C", VERIF, "checkout", "--", "evidence"], stdout=subprocess.DEVNULL, stderr=subprocess.DEVNULL)
 
 
 def main():
